@@ -351,6 +351,29 @@ func checkC09(c *Ctx) {
 		st := []proto.Step{openStep("defs1.lua", files["defs1.lua"]), openStep("defs2.lua", files["defs2.lua"]), openStep("user.lua", files["user.lua"])}
 		bws = append(bws, bw{"two_projects_shared", files, append(st, q...), len(q), ""})
 	}
+	// an annotation class declared in two files (each contributing fields) and used from a third: the union of the
+	// declarations must not depend on the order in which the files are visited
+	{
+		files := map[string]string{
+			"shape_a.lua": "---@class Shape\n---@field width number\n---@field depth number\n\n---@alias Size number\n",
+			"shape_b.lua": "---@class Shape\n---@field height number\n\n---@class Box : Shape\n---@field lid boolean\n",
+			"use.lua":     "---@type Shape\nlocal s = nil\nprint(s.width, s.height)\n---@type Box\nlocal b = nil\nprint(b.lid, b.depth, b.height)\n",
+		}
+		q := []proto.Step{
+			{M: "textDocument/hover", P: posParams("use.lua", 2, 9)},
+			{M: "textDocument/hover", P: posParams("use.lua", 2, 18)},
+			{M: "textDocument/definition", P: posParams("use.lua", 2, 9)},
+			{M: "textDocument/definition", P: posParams("use.lua", 2, 18)},
+			{M: "textDocument/definition", P: posParams("use.lua", 5, 14)},
+			{M: "textDocument/definition", P: posParams("use.lua", 5, 23)},
+			{M: "textDocument/hover", P: posParams("use.lua", 1, 6)},
+			changeStep("use.lua", 2, 6, 0, 6, 0, "local w = s.\n"),
+			{M: "textDocument/completion", P: compParams("use.lua", 6, 12)},
+			changeStep("use.lua", 3, 6, 0, 7, 0, "local w = b.\n"),
+			{M: "textDocument/completion", P: compParams("use.lua", 6, 12)},
+		}
+		bws = append(bws, bw{"split_class", files, append([]proto.Step{openStep("use.lua", files["use.lua"])}, q...), len(q), ""})
+	}
 	// the same workspaces with an entry file configured: the project pass (its own goroutines and tables) runs too
 	for _, b := range append([]bw{}, bws...) {
 		entry := ""
